@@ -108,7 +108,10 @@ def run(ctx: Ctx) -> None:
         for c in calls_in(f.node):
             if isinstance(c.func, ast.Name) and c.func.id in known_fn:
                 sq = short(f.qname) if f.cls else f.name
-                r.check(sq in allowed_callers, f"{sq}|{c.func.id}", f.loc(c), f"unexpected formatter call site {sq}: `{seg(f, c)}`")
+                if sq in allowed_callers:
+                    r.inst(f"{sq}|{c.func.id}", None)
+                else:
+                    ctx.notes.append(f"R17.width: formatter call site {sq} ({seg(f, c)}) is not in the table; its width is not decided")
     # declared types of the formatted values
     st = m.cls("ToyArchitecturalState")
     init = m.method(st, "__init__", own=True)
